@@ -65,3 +65,30 @@ func VfsRedirects() map[string]string {
 	}
 	return m
 }
+
+// SSHRedirects replaces x/crypto/ssh entry points by the stand-ins in harness/internal/anonssh.
+func SSHRedirects() map[string]string {
+	const a = "github.com/gokrazy/rsync/internal/anonssh."
+	const s = "golang.org/x/crypto/ssh."
+	return map[string]string{
+		s + "NewServerConn":                 a + "VNewServerConn",
+		"(*" + s + "ServerConfig).AddHostKey": a + "VAddHostKey",
+		s + "FingerprintSHA256":             a + "VFingerprint",
+		s + "DiscardRequests":               a + "VDiscardRequests",
+		"(*" + s + "Request).Reply":           a + "VReply",
+		s + "Unmarshal":                     a + "VUnmarshal",
+		"github.com/google/shlex.Split":     a + "VSplit",
+	}
+}
+
+// SSHExecRedirects marks the continuations an SSH session's command line may or may not reach.
+func SSHExecRedirects() map[string]string {
+	const m = "github.com/gokrazy/rsync/internal/maincmd."
+	const r = "github.com/gokrazy/rsync/rsyncd."
+	return map[string]string{
+		"(*" + r + "Server).HandleDaemonConn":   m + "VDaemonConn",
+		"(*" + r + "Server).InternalHandleConn": m + "VInternalHandleConn",
+		m + "clientMain":                         m + "VClientMain",
+		m + "namespace":                          m + "VNamespace",
+	}
+}
